@@ -487,7 +487,13 @@ def deriv_check(ctx, repo, c, construct_prefix):
                    (f"[{label}] " if label else "") + f"reported log-Jacobian {T.show(got)[:220]} is not the log absolute derivative of the map, {T.show(want)[:220]} (d/dv = {T.show(d)[:120]})")
 
 
-def run(ctx):
+def run(ctx, shared=True):
+    if shared:
+        from ..report import reuse as _reuse_
+        from . import c03 as _c03_
+        _reuse_(ctx, _c03_.run, ("C03.map", "C03.route"), "C04flow", "flow-wrapper rules shared with C03: FlowPreconditioningTransform.forward reports the flow wrapper's forward log-Jacobian, which is "
+                "rescale()'s data-transform term plus the flow's own; a term that is dropped or replaced on some rows (rows outside the prior box, say -- a periodic parameter is legitimately there "
+                "before it is wrapped) makes the reported forward log-Jacobian differ from the log|det| of the map and from minus the inverse one")
     repo = ctx.repo
     # ---- a transform is a function of its argument: it never writes into the array it was given (the caller's x would no longer be the
     #      pre-image of the returned y, and inverse(forward(x)) is compared with an x that has changed)
@@ -957,6 +963,10 @@ MUTANTS += [
 MUTANTS += [
     M("scalar bounds: column factor dropped from the forward scaling term", _T, "return y, log_j * self._columns_per_bound(y)", "return y, log_j", "C04.deriv"),
     M("scalar bounds: column factor is always one", _T, "if self._denom.shape[0] == 1 and x.ndim > 1:\n            return x.shape[-1]\n        return 1", "return 1", "C04.deriv"),
+]
+
+MUTANTS += [
+    M("flow wrapper's rescale routed to the inverse data transform", "src/aspire/flows/base.py", "return self.data_transform.forward(x)", "return self.data_transform.inverse(x)", "C04flow"),
 ]
 
 NEUTRALS = [
